@@ -224,3 +224,43 @@ Theorem C14_old_storeCBlock_hint_refuted :
   (FrameD.d_tmpInTarget s - FrameD.d_tmpInSize s) + FrameD.bcsize s + FD_BHSize = 18 /\ FrameD.zlen FrameDHint.hw_frame - 16 = 14.
 Proof. exact FrameDHint.old_storeCBlock_hint_exceeds_frame. Qed.
 Print Assumptions C14_old_storeCBlock_hint_refuted.
+
+(* ------------------------------------------------------------------------------------------------
+   Round 6: on the repaired model (F21 fixed) the hint bound is a THEOREM (Proofs/FrameDHintProofs.v).
+   C14_hint_within_frame: for every block decoder, every specification-valid frame (all checksums verified), every
+   first call of LZ4F_decompress on a calloc'ed context that consumes the k > 0 bytes it is given (any capacity, any
+   options): a positive return value (the hint) is at most the number of frame bytes still to come.
+   C14_call_hint_within_frame: the same for ANY call made at a position of the chunking invariant (FrameDChunk.BInv:
+   any earlier calls, any pieces, any capacities; skipChecksums on or off) of a valid frame: the hint returned by a
+   stopping call is at most the number of frame bytes not yet consumed.
+   Proof: (1) stage by stage, the value returned by a stopping stage is [stop_hint] of the state it leaves (run_hint:
+   storeFrameHeader rest+4, blockHeader 4+n+crc, storeBlockHeader rest, copyDirect rest+crc+4, getBlockChecksum 1,
+   flushOut 4, storeCBlock rest+4, storeSuffix rest); (2) at every CInv position of a valid frame stop_hint <= bytes to
+   come (hint_state_bound: the continuation clause of CInv yields the length of what the specification still has to
+   see; the header-staging stage through headerSize_spec; skippable stages contradict validity); (3) call_chunk gives
+   the CInv position after the call.
+   Still open: C14_lz4f_st_reads_exactly_full_statement (lost = [] for the ST loop) - the loop-level induction that
+   threads this bound through IoLz4f.inner/outer is not done; stloop checks it on every run. *)
+From LZ4V Require Proofs.FrameDHintProofs Proofs.FrameDChunk.
+
+Theorem C14_hint_within_frame : FrameDHint.hint_within_frame_statement.
+Proof. exact FrameDHintProofs.hint_within_frame. Qed.
+Print Assumptions C14_hint_within_frame.
+
+Theorem C14_call_hint_within_frame :
+  forall (bdec : list byte -> list byte -> option (list byte)) skip dict s src cap o p O g res l' h,
+  FrameD.o_skip o = skip -> FrameDProofs.wf s -> FrameDChunk.BInv bdec skip dict p O s -> bytes_ok src = true -> 0 <= cap ->
+  frame_decode bdec false dict (p ++ src ++ g) = Some res ->
+  FrameD.run bdec (FrameD.call_fuel src) o (FrameD.mkL (FrameD.set_skip s (FrameD.d_skip s || FrameD.o_skip o)) src 0 [] cap) = (l', FrameD.FStop h) ->
+  0 < h -> bytes_ok g = true ->
+  snd (FrameD.decompress bdec s src cap o) = FrameD.mkR (FrameD.l_used l') (FrameD.zlen (FrameD.l_out l')) (FrameD.l_out l') h false /\
+  h <= FrameD.zlen src + FrameD.zlen g - FrameD.l_used l'.
+Proof. exact FrameDHintProofs.call_hint_within_frame. Qed.
+Print Assumptions C14_call_hint_within_frame.
+
+(* the F21 witness frame, cut anywhere: every positive hint is within the frame (instance of the theorem, by computation) *)
+Example C14_ex_hint_bound_on_witness :
+  forallb (fun k => let r := snd (FrameD.decompress spec_decode FrameD.dctx_init (FrameD.ztake k FrameDHint.hw_frame) 100 (FrameD.mkO false false false)) in
+                    (FrameD.r_ret r <=? 30 - FrameD.r_consumed r))
+          [1; 2; 3; 4; 5; 6; 7; 8; 9; 10; 11; 12; 13; 14; 15; 16; 17; 18; 19; 20; 21; 22; 23; 24; 25; 26; 27; 28; 29] = true.
+Proof. vm_compute. reflexivity. Qed.
